@@ -217,8 +217,19 @@ func (d *Document) GetPageSettings() *PageSettings {
 		width := twipsToMM(parseFloat(sectPr.PageSize.W))
 		height := twipsToMM(parseFloat(sectPr.PageSize.H))
 
+		// w:pgSz 记录的是物理尺寸；横向时写入端（getPageDimensions）会交换宽高，
+		// 读取时需换回逻辑尺寸，否则每次“读取-修改-写回”都会把自定义尺寸再翻转一次
+		if sectPr.PageSize.Orient == string(OrientationLandscape) {
+			width, height = height, width
+		}
+
 		// 判断是否为预定义尺寸
 		settings.Size = identifyPageSize(width, height)
+		if dims, ok := predefinedSizes[settings.Size]; ok &&
+			!(abs(width-dims.width) < 1.0 && abs(height-dims.height) < 1.0) {
+			// 仅在旋转后才匹配预定义尺寸（如纵向的 297x210）：按自定义尺寸保留，避免写回时被旋转
+			settings.Size = PageSizeCustom
+		}
 		if settings.Size == PageSizeCustom {
 			settings.CustomWidth = width
 			settings.CustomHeight = height
